@@ -77,20 +77,24 @@ func (f *fAdapterTransport) Open() error {
 		}
 	}
 
-	go f.readLoop()
+	// Every read loop gets its own close signal: a token left behind by a
+	// loop that closed the transport itself (peer EOF, read error) must neither
+	// block a later close nor be mistaken for a close request by the next loop.
+	f.closeSignal = make(chan struct{}, 1)
+	go f.readLoop(f.closeSignal)
 	f.isOpen = true
 	f.closeChan = make(chan error, 1)
 	return nil
 }
 
-func (f *fAdapterTransport) readLoop() {
+func (f *fAdapterTransport) readLoop(closeSignal <-chan struct{}) {
 	framedTransport := NewTFramedTransport(f.transport)
 	for {
 		frame, err := f.readFrame(framedTransport)
 		if err != nil {
 			// First check if the transport was closed.
 			select {
-			case <-f.closeSignal:
+			case <-closeSignal:
 				// Transport was closed.
 				return
 			default:
@@ -149,7 +153,12 @@ func (f *fAdapterTransport) close(cause error) error {
 		return thrift.NewTTransportException(TRANSPORT_EXCEPTION_NOT_OPEN, "Transport not open")
 	}
 
-	f.closeSignal <- struct{}{}
+	// Never block while holding the lifecycle mutex: if a token is already
+	// pending the read loop has been told to stop.
+	select {
+	case f.closeSignal <- struct{}{}:
+	default:
+	}
 	if err := f.transport.Close(); err != nil {
 		// Close failed, drain close signal.
 		select {
